@@ -1,0 +1,18 @@
+//go:build verif
+
+package badgerstore
+
+// Verification hooks (build tag "verif" only). With the tag off the function
+// in verif_nohooks.go is used instead and compiles to nothing.
+
+// VerifPointFn, when set, is called at instrumentation points with the name
+// of the point and the resource ID concerned. It may block, yield or kill the
+// process. It is never called while a BadgerDB transaction is open, except for
+// the points named "init.*".
+var VerifPointFn func(point string, id string)
+
+func verifPoint(point string, id string) {
+	if f := VerifPointFn; f != nil {
+		f(point, id)
+	}
+}
